@@ -45,7 +45,7 @@ impl RtcpPacketWriter for Foreign {
     }
 }
 
-const MB: usize = 48;
+const MB: usize = 40;
 
 /// One member built alone: its result and image.
 struct Alone {
@@ -79,13 +79,11 @@ fn same_packet(a: &Result<Packet<'_>, RtcpParseError>, b: &Result<Packet<'_>, Rt
     }
 }
 
-/// The C14 oracle for a compound `c` of `n` members built alone as `m[0..n]`.
-fn check<S: Src, const N: usize>(s: &mut S, c: &CompoundBuilder<'_>, m: &[Alone; N]) {
+/// Build side of C14: acceptance, size and bytes of a compound `c` of members built alone
+/// as `m`.  Returns the written bytes on success.
+fn check_build<S: Src, const N: usize>(s: &mut S, c: &CompoundBuilder<'_>, m: &[Alone; N], buf: &mut [u8; 128]) -> Option<usize> {
     let i = s.upto(N * MB);
-    let k = s.upto(if N > 0 { N - 1 } else { 0 });
-    let mut buf = [0u8; 200];
-    let r = c.write_into(&mut buf);
-    // expected acceptance and size
+    let r = c.write_into(buf);
     let mut all_ok = true;
     let mut non_last_padding = false;
     let mut total = 0;
@@ -100,11 +98,11 @@ fn check<S: Src, const N: usize>(s: &mut S, c: &CompoundBuilder<'_>, m: &[Alone;
         }
         q += 1;
     }
+    vcover!(N < 2 || (all_ok && non_last_padding), "non-last padding case reached");
     match r {
         Ok(n) => {
             assert!(all_ok && !non_last_padding, "compound accepted although a member is invalid or a non-last member is padded");
             assert!(n == total, "compound size is not the sum of its members");
-            // byte i belongs to the member image it falls into
             if i < n {
                 let mut off = 0;
                 let mut q = 0;
@@ -117,35 +115,43 @@ fn check<S: Src, const N: usize>(s: &mut S, c: &CompoundBuilder<'_>, m: &[Alone;
                     q += 1;
                 }
             }
-            if N > 0 {
-                // parses back to the members
-                let mut it = Compound::parse(&buf[..n]).expect("own compound parser rejects the built compound");
-                let mut off = 0;
-                let mut q = 0;
-                while q < N {
-                    let got = it.next().expect("fewer packets than members");
-                    let sz = m[q].r.as_ref().ok().copied().unwrap_or(0);
-                    if q == k {
-                        let want = Packet::parse(&m[q].img[..sz]);
-                        same_packet(&got, &want);
-                        forget(want);
-                    }
-                    // a member that does not parse stops the iteration: not the case for
-                    // well-formed members
-                    assert!(got.is_ok(), "a built member does not parse");
-                    forget(got);
-                    off += sz;
-                    q += 1;
-                }
-                assert!(it.next().is_none(), "more packets than members");
-                assert!(off == n);
-            }
-            vcover!(N > 1 && m[N - 1].padded, "padded last member");
+            vcover!(N == 0 || (i < n && i >= 4), "a byte compared");
+            Some(n)
         }
         Err(e) => {
             assert!(!all_ok || non_last_padding, "compound rejected although every member is valid and only the last is padded");
             assert!(!matches!(e, RtcpWriteError::OutputTooSmall(_)));
-            vcover!(non_last_padding && all_ok, "rejected for non-last padding");
+            None
+        }
+    }
+}
+
+/// Parse side of C14: the built compound yields one packet per member, in order, and packet
+/// `K` equals the member parsed on its own.
+fn check_parse<const N: usize, const K: usize>(buf: &[u8; 128], n: usize, m: &[Alone; N]) {
+    let mut it = Compound::parse(&buf[..n]).expect("own compound parser rejects the built compound");
+    let mut q = 0;
+    while q < N {
+        let got = it.next().expect("fewer packets than members");
+        assert!(got.is_ok(), "a built member does not parse");
+        if q == K {
+            let sz = m[q].r.as_ref().ok().copied().unwrap_or(0);
+            let want = Packet::parse(&m[q].img[..sz]);
+            same_packet(&got, &want);
+            forget(want);
+        }
+        forget(got);
+        q += 1;
+    }
+    assert!(it.next().is_none(), "more packets than members");
+    vcover!(true, "parsed back");
+}
+
+fn check<S: Src, const N: usize, const K: usize>(s: &mut S, c: &CompoundBuilder<'_>, m: &[Alone; N], parse_back: bool) {
+    let mut buf = [0xA5u8; 128];
+    if let Some(n) = check_build::<S, N>(s, c, m, &mut buf) {
+        if parse_back && N > 0 {
+            check_parse::<N, K>(&buf, n, m);
         }
     }
 }
@@ -181,23 +187,23 @@ fn draw_unknown<S: Src>(s: &mut S) -> UnknownCfg<8> {
 
 pub fn empty<S: Src>(s: &mut S) {
     let c = Compound::builder();
-    check::<S, 0>(s, &c, &[]);
+    check::<S, 0, 0>(s, &c, &[], false);
     vcover!(c.calculate_size() == Ok(0), "empty compound");
 }
 
-pub fn rr_bye<S: Src>(s: &mut S) {
+pub fn rr_bye<S: Src, const PARSE: bool, const K: usize>(s: &mut S) {
     let (a, b) = (draw_rr(s), draw_bye(s));
     let m = [alone(&a.builder()), alone(&b.builder())];
     let c = Compound::builder().add_packet(a.builder()).add_packet(b.builder());
-    check::<S, 2>(s, &c, &m);
+    check::<S, 2, K>(s, &c, &m, PARSE);
     forget(c);
 }
 
-pub fn bye_app<S: Src>(s: &mut S) {
+pub fn bye_app<S: Src, const PARSE: bool, const K: usize>(s: &mut S) {
     let (a, b) = (draw_bye(s), draw_app(s));
     let m = [alone(&a.builder()), alone(&b.builder())];
     let c = Compound::builder().add_packet(a.builder()).add_packet(b.builder());
-    check::<S, 2>(s, &c, &m);
+    check::<S, 2, K>(s, &c, &m, PARSE);
     forget(c);
 }
 
@@ -205,15 +211,15 @@ pub fn app_sr_unknown<S: Src>(s: &mut S) {
     let (a, b, u) = (draw_app(s), draw_sr(s), draw_unknown(s));
     let m = [alone(&a.builder()), alone(&b.builder()), alone(&u.builder())];
     let c = Compound::builder().add_packet(a.builder()).add_packet(b.builder()).add_packet(u.builder());
-    check::<S, 3>(s, &c, &m);
+    check::<S, 3, 2>(s, &c, &m, false);
     forget(c);
 }
 
-pub fn unknown_rr<S: Src>(s: &mut S) {
+pub fn unknown_rr<S: Src, const PARSE: bool>(s: &mut S) {
     let (u, a) = (draw_unknown(s), draw_rr(s));
     let m = [alone(&u.builder()), alone(&a.builder())];
     let c = Compound::builder().add_packet(u.builder()).add_packet(a.builder());
-    check::<S, 2>(s, &c, &m);
+    check::<S, 2, 0>(s, &c, &m, PARSE);
     forget(c);
 }
 
@@ -221,7 +227,7 @@ pub fn single<S: Src>(s: &mut S) {
     let a = draw_app(s);
     let m = [alone(&a.builder())];
     let c = Compound::builder().add_packet(a.builder());
-    check::<S, 1>(s, &c, &m);
+    check::<S, 1, 0>(s, &c, &m, true);
     forget(c);
 }
 
@@ -234,7 +240,7 @@ pub fn fb_wrapped<S: Src>(s: &mut S) {
     let mk = || PayloadFeedback::builder(&sli).sender_ssrc(fbc.sender).media_ssrc(fbc.media).padding(fbc.padding);
     let m = [alone(&mk()), alone(&b.builder())];
     let c = Compound::builder().add_packet(mk()).add_packet(PacketBuilder::from(b.builder()));
-    check::<S, 2>(s, &c, &m);
+    check::<S, 2, 0>(s, &c, &m, false);
     forget(c);
 }
 
@@ -250,7 +256,7 @@ pub fn sdes_member<S: Src, const LAST: bool>(s: &mut S) {
     } else {
         ([alone(&mk()), alone(&a.builder())], Compound::builder().add_packet(mk()).add_packet(a.builder()))
     };
-    check::<S, 2>(s, &c, &m);
+    check::<S, 2, 1>(s, &c, &m, false);
     forget(c);
 }
 
@@ -264,7 +270,7 @@ pub fn nested_foreign<S: Src>(s: &mut S) {
     let c = Compound::builder().add_packet(inner()).add_packet(b.builder());
     // the nested compound is two tiles on the wire: compare bytes, size and acceptance only
     let i = s.upto(2 * MB);
-    let mut buf = [0u8; 200];
+    let mut buf = [0u8; 128];
     let r = c.write_into(&mut buf);
     match (r, &m[0].r, &m[1].r) {
         (Ok(n), Ok(x), Ok(y)) => {
@@ -289,14 +295,19 @@ pub fn nested_foreign<S: Src>(s: &mut S) {
 common::register! {
     q_empty = empty => 2,
     q_single = single => 3,
-    q_rr_bye = rr_bye => 4,
-    q_bye_app = bye_app => 4,
-    q_unknown_rr = unknown_rr => 4,
+    q_rr_bye = rr_bye::<_, false, 0> => 4,
+    q_rr_bye_parse_1 = rr_bye::<_, true, 1> => 4,
+    q_bye_app = bye_app::<_, false, 0> => 4,
+    q_unknown_rr = unknown_rr::<_, false> => 4,
     q_app_sr_unknown = app_sr_unknown => 5,
     q_fb_wrapped = fb_wrapped => 4,
     q_sdes_last = sdes_member::<_, true> => 4,
     q_sdes_first = sdes_member::<_, false> => 4,
     q_nested_foreign = nested_foreign => 4,
+    t_rr_bye_parse_0 = rr_bye::<_, true, 0> => 4,
+    t_bye_app_parse_0 = bye_app::<_, true, 0> => 4,
+    t_bye_app_parse_1 = bye_app::<_, true, 1> => 4,
+    t_unknown_rr_parse = unknown_rr::<_, true> => 4,
 }
 
 #[cfg(not(kani))]
